@@ -37,6 +37,7 @@ type World struct {
 	pureLib     map[string]bool
 	specFiles   []string
 	globalGhosts map[string]string // name -> type
+	kfExcept    map[string]Expr
 }
 
 func (w *World) pos(p token.Pos) string {
@@ -84,7 +85,7 @@ func pkgPathOfFile(f string) string {
 func loadWorld(prop string, extraPkgs []string) (*World, error) {
 	w := &World{specs: map[string]*FuncSpec{}, extern: map[string]*FuncSpec{}, ifaceSpecs: map[string]*FuncSpec{}, specFuncs: map[string]*SpecFunc{},
 		specFuncPkg: map[string]*types.Package{}, usedLib: map[string]bool{}, refuted: map[string]bool{}, spkgs: map[string]*ssa.Package{},
-		typesPkgs: map[string]*types.Package{}, pureLib: map[string]bool{}, globalGhosts: map[string]string{}}
+		typesPkgs: map[string]*types.Package{}, pureLib: map[string]bool{}, globalGhosts: map[string]string{}, kfExcept: map[string]Expr{}}
 	files := findContractFiles()
 	w.specFiles = files
 	parsed := map[string]*SpecFile{}
